@@ -17,7 +17,7 @@ PROPS = {
              "thorough": [("MsgQueue_mid", "MsgQueue_mid.cfg", MQ), ("MsgQueue_thorough", "MsgQueue_thorough.cfg", MQ)]},
         dev=[("MsgQueue_dev_F2", "MsgQueue_dev_F2.cfg", MQ, "NoLostWakeup")],
         family="C07", drivers=["d1"], mech=("queue", "T_MsgQueue.tla", "T_MsgQueue.cfg"),
-        passes={"quick": [("mix", 8, None), ("demote", 600, 40)], "thorough": [("mix", 60, None), ("delay", 2, 400), ("demote", 1500, 200)]},
+        passes={"quick": [("mix", 8, None), ("demote", 600, 40)], "thorough": [("mix", 60, None), ("delay", 2, 400), ("demote", 1000, 60)]},
         nontrivial=r'"ev":"RecvRet".*"res":"req"',
         rule="scenarios: receiver combinations x request timing (family C07); distinct = distinct observable traces (events incl. virtual time); non-trivial = at least one request was delivered by a receive call",
     ),
@@ -26,7 +26,7 @@ PROPS = {
              "thorough": [("MsgQueue_mid", "MsgQueue_mid.cfg", MQ), ("MsgQueue_thorough", "MsgQueue_thorough.cfg", MQ)]},
         dev=[("MsgQueue_dev_F2", "MsgQueue_dev_F2.cfg", MQ, "NoLostWakeup")],
         family="C17", drivers=["d1"], mech=("queue", "T_MsgQueue.tla", "T_MsgQueue.cfg"),
-        passes={"quick": [("mix", 8, None), ("demote", 600, 40)], "thorough": [("mix", 60, None), ("delay", 2, 400), ("demote", 1500, 200)]},
+        passes={"quick": [("mix", 8, None), ("demote", 600, 40)], "thorough": [("mix", 60, None), ("delay", 2, 400), ("demote", 1000, 60)]},
         nontrivial=r'"ev":"Unblock"',
         rule="scenarios: receiver combinations x unblock instants x request instants (family C17); distinct = distinct observable traces; non-trivial = at least one unblock() call before teardown or a timed receive returning",
     ),
@@ -35,7 +35,7 @@ PROPS = {
              "thorough": [("TaskPool_quick", "TaskPool_quick.cfg", TP), ("TaskPool_thorough", "TaskPool_thorough.cfg", TP)]},
         dev=[("TaskPool_dev_F3", "TaskPool_dev_F3.cfg", TP, "NoStarve")],
         family="C08", drivers=["d1"], mech=("pool", "T_TaskPool.tla", "T_TaskPool.cfg"),
-        passes={"quick": [("mix", 10, None), ("demote", 300, 12)], "thorough": [("mix", 80, None), ("delay", 2, 300), ("demote", 1500, 60)]},
+        passes={"quick": [("mix", 10, None), ("demote", 300, 12)], "thorough": [("mix", 80, None), ("delay", 2, 300), ("demote", 600, 30)]},
         nontrivial=r'"ev":"COpen","c":4,',
         rule="scenarios: N simultaneous keep-alive connections, burst / stalled / held / staggered / waves around the idle period (family C08); distinct = distinct observable traces; non-trivial = at least 5 connections open at once (more than the pool minimum)",
     ),
@@ -44,7 +44,7 @@ PROPS = {
              "thorough": [("TaskPool_c20_quick", "TaskPool_c20_quick.cfg", TP), ("TaskPool_c20_thorough", "TaskPool_c20_thorough.cfg", TP)]},
         dev=[],
         family="C20", drivers=["d1"], mech=("pool", "T_TaskPool.tla", "T_TaskPool.cfg"),
-        passes={"quick": [("mix", 6, None), ("demote", 300, 8)], "thorough": [("mix", 60, None), ("delay", 1, 100), ("demote", 1500, 40)]},
+        passes={"quick": [("mix", 6, None), ("demote", 300, 8)], "thorough": [("mix", 60, None), ("delay", 1, 100), ("demote", 600, 20)]},
         nontrivial=r'"ev":"(Probe|ServerDrop)"',
         rule="scenarios: bursts followed by idle periods with thread-count probes; server drop with held requests and later connects (family C20); distinct = distinct observable traces",
     ),
@@ -53,7 +53,7 @@ PROPS = {
              "thorough": [("WriterChain_quick", "WriterChain_quick.cfg", WC), ("WriterChain_thorough", "WriterChain_thorough.cfg", WC)]},
         dev=[("WriterChain_dev_F1", "WriterChain_dev_F1.cfg", WC, "OrderInv"), ("WriterChain_dev_flush", "WriterChain_dev_flush.cfg", WC, "OrderInv")],
         family="C01", drivers=["d1"], mech=("writer", "T_WriterChain.tla", "T_WriterChain.cfg"),
-        passes={"quick": [("mix", 12, None), ("delay", 1, 40), ("demote", 400, 30)], "thorough": [("mix", 40, None), ("delay", 2, 400), ("demote", 1500, 150)]},
+        passes={"quick": [("mix", 12, None), ("delay", 1, 40), ("demote", 400, 30)], "thorough": [("mix", 40, None), ("delay", 2, 400), ("demote", 800, 60)]},
         nontrivial=r'"ev":"CFrame".*"k":1,',
         rule="scenarios: 2-3 pipelined requests x answer plans (respond sizes around the 1 KiB buffer / chunked / raw writer parts x flush / unused writer / drop / panic) x {own thread each, one thread in arrival order} (family C01); distinct = distinct observable traces; non-trivial = at least two response frames reached the client",
     ),
@@ -62,7 +62,7 @@ PROPS = {
              "thorough": [("WriterChain_quick", "WriterChain_quick.cfg", WC), ("WriterChain_thorough", "WriterChain_thorough.cfg", WC)]},
         dev=[("WriterChain_dev_F5", "WriterChain_dev_F5.cfg", WC, "EveryoneFinishes")],
         family="C06", drivers=["d1", "d2"], d2={"quick": (60, 1), "thorough": (300, 2)}, mech=("writer", "T_WriterChain.tla", "T_WriterChain.cfg"),
-        passes={"quick": [("mix", 12, None), ("delay", 1, 40), ("demote", 400, 30)], "thorough": [("mix", 40, None), ("delay", 2, 400), ("demote", 1500, 150)]},
+        passes={"quick": [("mix", 12, None), ("delay", 1, 40), ("demote", 400, 30)], "thorough": [("mix", 40, None), ("delay", 2, 400), ("demote", 800, 60)]},
         nontrivial=r'"how":"(drop|panic)"',
         rule="as C01; non-trivial = the execution contains a dropped or panicking handler",
     ),
@@ -73,8 +73,12 @@ D2_PROPS = {"C02", "C03", "C06", "C09", "C10", "C12", "C16", "C18", "C13", "C15"
 RC_FREE = ("ReaderChain_free", "ReaderChain_free.cfg", RC)
 RC_HOLD = ("ReaderChain_hold", "ReaderChain_hold.cfg", RC)
 RC_F4 = ("ReaderChain_dev_F4", "ReaderChain_dev_F4.cfg", RC, "HeadsAtMessageStart")
-MECH = {"C03": ([RC_FREE], []), "C09": ([RC_FREE], [RC_F4]), "C11": ([RC_HOLD, RC_FREE], []), "C18": ([RC_FREE], []),
-        "C10": ([("WriterChain_quick", "WriterChain_quick.cfg", WC)], [("WriterChain_dev_F5", "WriterChain_dev_F5.cfg", WC, "EveryoneFinishes")]),
+CL = "MC_ConnLoop.tla"
+CL_ALL = ("ConnLoop_thorough", "ConnLoop_thorough.cfg", CL)
+CL_KA = ("ConnLoop_dev_keepalive", "ConnLoop_dev_keepalive.cfg", CL, "NeverBeyondStop")
+CL_E10 = ("ConnLoop_dev_expect10", "ConnLoop_dev_expect10.cfg", CL, "NeverBeyondStop")
+MECH = {"C03": ([RC_FREE], []), "C12": ([CL_ALL], [CL_KA]), "C09": ([RC_FREE], [RC_F4]), "C11": ([RC_HOLD, RC_FREE], []), "C18": ([RC_FREE], []),
+        "C10": ([("WriterChain_quick", "WriterChain_quick.cfg", WC), CL_ALL], [("WriterChain_dev_F5", "WriterChain_dev_F5.cfg", WC, "EveryoneFinishes"), CL_E10]),
         "C13": ([RC_FREE], []), "C15": ([RC_FREE], [])}
 
 def _conn_prop(fam, nontrivial, rule, quick_runs=4, thorough_runs=30):
@@ -139,10 +143,11 @@ def run_passes(prop, scs, passes, seed, wdir):
             # family marks for it, else a sample
             rng = random.Random("%s/demote/%d" % (prop, seed))
             sub = [s_ for s_ in scs if "demote" in s_.get("tags", [])]
-            if not sub:
-                sub = scs
             if len(sub) > b:
                 sub = rng.sample(sub, b)
+            rest = [s_ for s_ in scs if "demote" not in s_.get("tags", [])]
+            if len(sub) < b and rest:
+                sub = sub + rng.sample(rest, min(len(rest), b - len(sub)))
             extra = ["--sched", "demote", "--max-execs", str(a)]
             files += vlib.run_driver(vlib.D1, sub, os.path.join(wdir, "traces"), "p%d" % pi, extra)
         elif sched == "delay":
@@ -238,10 +243,11 @@ def run_check(prop, tier, seed):
                 mex.append((x, evs))
         acc, div = mechtrace.validate_mech(mspec, mcfg, mex, os.path.join(wdir, "mech"), kind)
         walks = None
-        if kind == "queue":
-            walks = mechtrace.spec_walks(2000 if tier == "quick" else 20000, os.path.join(wdir, "walks"), seed)
-            log("[walk] %d TLC-generated behaviours of mech/MsgQueue stepped through the real code: %d conform, %d actions executed" % (
-                walks["behaviours_generated_by_tlc"], walks["conform"], walks["actions_executed_on_the_real_code"]))
+        if kind in ("queue", "pool"):
+            nwalk = (2000 if tier == "quick" else 20000) if kind == "queue" else (600 if tier == "quick" else 6000)
+            walks = mechtrace.spec_walks(nwalk, os.path.join(wdir, "walks"), seed, kind)
+            log("[walk] %d TLC-generated behaviours of mech/%s stepped through the real code: %d conform, %d actions executed" % (
+                walks["behaviours_generated_by_tlc"], "MsgQueue" if kind == "queue" else "TaskPool", walks["conform"], walks["actions_executed_on_the_real_code"]))
         fidelity = {"spec_to_impl_walks": walks, "mechanism_spec": mspec, "executions": len(mex), "accepted": acc, "divergences": div[:10],
                     "n_divergences": len(div), "unmappable": unmapped, "marker_events": sum(len(e) for _, e in mex)}
         if kind == "writer":
